@@ -141,6 +141,14 @@ def check_pair(ctx, P, t, a, base=None):
             ctx.check('parse(P+enc(M)) == parse(P)+[M]', one == base + [M] and npend == len(base) + 1 and p.pending() == 0,
                       f'{how}:' + t, case,
                       lambda: {'got': [m.hex() for m in one], 'want': [m.hex() for m in base] + [M.hex()], 'pending()': npend})
+        # after a complete message that is not a real-time message the parser starts afresh: whatever follows
+        # (stray data, a lone F7, the tail of an aborted sysex, further messages) is parsed as if it stood alone
+        if t not in midi1.REALTIME_TYPES:
+            for G in ([3, 0xF7], [0x40], [0xF7], [1, 2, 0xF7, 0xC1, 9], [0xF8, 5, 0xF7, 0xF6]):
+                tail = mido.parse_all(G)
+                whole = mido.parse_all(list(P) + enc + G)
+                ctx.check('parse(P+enc(M)) == parse(P)+[M]', whole == base + [M] + tail, 'suffix-after-complete-message:' + t, case,
+                          lambda: {'suffix': G, 'got': [m.hex() for m in whole], 'want': [m.hex() for m in base + [M] + tail]})
         # the call that delivered the prefix ended badly - its source raised after the last byte of P, or an item
         # that is no MIDI byte followed P - and M arrives in the next call: M is still recognised, and what
         # P had completed is still delivered
